@@ -123,6 +123,9 @@ func (s *Server) rejectPrivateAndLoopbackIPAction(_ context.Context, in egress.I
 			ip = net.ParseIP("127.0.0.1")
 		} else if isWellKnownIPv6LocalDomainName {
 			ip = net.ParseIP("::1")
+		} else if literal := net.ParseIP(domainName); literal != nil {
+			// The domain name is an IP address literal.
+			ip = literal
 		} else {
 			return egress.Action{
 				Action: appctlpb.EgressAction_DIRECT,
